@@ -18,8 +18,9 @@
 //! Thorough tier adds rustrtc against the independent webrtc-rs `dtls` crate (see `c11_interop.rs`).
 
 use crate::engine::{AsyncCheck, CaseRec, Check, Ctx, Fail, pick};
+use crate::net::coalesce::RegroupSpec;
 use crate::net::fault::{Action, CustomFn, Phase, Rule, Side};
-use crate::net::rig::{Pair, PairSpec, state_name};
+use crate::net::rig::{Extras, Pair, PairSpec, state_name};
 use crate::net::wire::{self, DClass};
 use bytes::Bytes;
 use hmac::{Hmac, Mac};
@@ -101,6 +102,17 @@ pub struct Case {
     pub faults: Vec<Fault>,
     pub a_is_client: bool,
     pub timers: Timers,
+    /// re-grouping of each sender's records into datagrams before the faults apply (None = one record per
+    /// datagram, as rustrtc sends them); fault classes then address a datagram by its FIRST record
+    #[serde(default)]
+    pub regroup: Option<Regrouping>,
+}
+
+/// Per sender role: merge the records of each flight into one datagram, re-order them inside it, split it again.
+#[derive(Clone, Debug, PartialEq, Eq, Serialize, Deserialize)]
+pub struct Regrouping {
+    pub client: Option<RegroupSpec>,
+    pub server: Option<RegroupSpec>,
 }
 
 pub fn role_name(client: bool) -> &'static str {
@@ -375,6 +387,11 @@ pub struct Outcome {
     /// rules whose datagram was not an unfragmented epoch-0 handshake record (delivered unchanged)
     pub refrag_passthrough: Vec<usize>,
     pub refrag_selfcheck: Check,
+    /// datagrams with more than one record handed to an endpoint / to an endpoint that was Connected
+    pub multi_delivered: u32,
+    pub multi_to_connected: u32,
+    /// flights whose records were re-ordered inside the datagram
+    pub reordered_flights: u32,
     pub safety: Check,
     pub app: Check,
     pub trace: String,
@@ -513,7 +530,16 @@ async fn run_case_once(c: &Case) -> anyhow::Result<Outcome> {
     spec.a_is_client = c.a_is_client;
     spec.sctp = None;
     let start = Instant::now();
-    let mut pair = Pair::build(spec).await?;
+    let mut extras = Extras::default();
+    if let Some(rg) = &c.regroup {
+        let (cl, sv) = (rg.client.clone(), rg.server.clone());
+        if c.a_is_client {
+            (extras.regroup_a, extras.regroup_b) = (cl, sv);
+        } else {
+            (extras.regroup_a, extras.regroup_b) = (sv, cl);
+        }
+    }
+    let mut pair = Pair::build_with(spec, extras).await?;
 
     let log: Arc<Mutex<Vec<(usize, &'static str, usize)>>> = Arc::new(Mutex::new(Vec::new()));
     let passthrough: Arc<Mutex<Vec<usize>>> = Arc::new(Mutex::new(Vec::new()));
@@ -696,6 +722,11 @@ async fn run_case_once(c: &Case) -> anyhow::Result<Outcome> {
     }
     let fired = g.fired.clone();
     drop(g);
+    let (multi_delivered, multi_to_connected) = {
+        let m = pair.multi_rx.lock();
+        (m.len() as u32, m.iter().filter(|m| m.to_connected).count() as u32)
+    };
+    let reordered_flights: u32 = pair.regroup_log.iter().map(|l| l.lock().reordered_flights).sum();
     let out = Outcome {
         t_conn,
         final_state: [state_name(&st[0]), state_name(&st[1])],
@@ -708,6 +739,9 @@ async fn run_case_once(c: &Case) -> anyhow::Result<Outcome> {
         refrag_log: log.lock().clone(),
         refrag_passthrough: passthrough.lock().clone(),
         refrag_selfcheck: selfcheck.lock().clone(),
+        multi_delivered,
+        multi_to_connected,
+        reordered_flights,
         safety,
         app,
         trace,
@@ -784,6 +818,18 @@ pub fn judge(c: &Case, o: &Outcome, rec: &CaseRec, known: &Known) -> Check {
     if !c.a_is_client {
         rec.label("roles-swapped");
     }
+    if c.regroup.is_some() {
+        rec.label("regrouped");
+    }
+    if o.multi_delivered > 0 {
+        rec.label("multi-record-datagram-delivered");
+    }
+    if o.multi_to_connected > 0 {
+        rec.label("multi-record-datagram-to-Connected-endpoint");
+    }
+    if o.reordered_flights > 0 {
+        rec.label("records-reordered-inside-datagram");
+    }
     rec.label(format!("outcome:client={},server={}", o.final_state[0], o.final_state[1]));
 
     o.refrag_selfcheck.clone()?;
@@ -791,8 +837,11 @@ pub fn judge(c: &Case, o: &Outcome, rec: &CaseRec, known: &Known) -> Check {
     let t = c.timers.interval().as_secs_f64() * 1e3;
     let describe = || {
         format!(
-            "timers {}; plan {:?}; fired kinds {:?}; client {} (Connected at {:?} ms), server {} (Connected at {:?} ms); last fault effect at {:.0} ms, observation ended at {:.0} ms; {} retransmitted datagrams; datagram counts {:?}; trace (ms:role tx|dl:class):{}",
+            "timers {}; regroup {:?} ({} multi-record datagrams delivered, {} of them to a Connected endpoint); plan {:?}; fired kinds {:?}; client {} (Connected at {:?} ms), server {} (Connected at {:?} ms); last fault effect at {:.0} ms, observation ended at {:.0} ms; {} retransmitted datagrams; datagram counts {:?}; trace (ms:role tx|dl:class):{}",
             c.timers.name(),
+            c.regroup,
+            o.multi_delivered,
+            o.multi_to_connected,
             c.faults,
             kinds,
             o.final_state[0],
@@ -806,14 +855,29 @@ pub fn judge(c: &Case, o: &Outcome, rec: &CaseRec, known: &Known) -> Check {
             o.trace
         )
     };
+    // a re-grouped run names the re-grouping in its signature (datagram classes mean "first record" there)
+    let rg = match &c.regroup {
+        None => String::new(),
+        Some(r) => {
+            let d = |s: &Option<RegroupSpec>| match s {
+                None => "as-sent".to_string(),
+                Some(s) => format!(
+                    "{}{}",
+                    if s.order.is_empty() || s.reorder_first == 0 { "merged" } else { "merged-reordered" },
+                    if s.split > 0 { "-split" } else { "" }
+                ),
+            };
+            format!("@regroup(client={},server={})", d(&r.client), d(&r.server))
+        }
+    };
     let keyed = |prefix: &str| -> (String, bool) {
         // attribute to a known culprit if one fired, else name everything that fired
-        if let Some(k) = kinds.iter().find(|k| known.contains(&format!("no-convergence:{k}"))) {
-            (format!("{prefix}:{k}"), true)
+        if let Some(k) = kinds.iter().find(|k| known.contains(&format!("no-convergence:{k}{rg}"))) {
+            (format!("{prefix}:{k}{rg}"), true)
         } else if kinds.is_empty() {
-            (format!("{prefix}:no-fault"), false)
+            (format!("{prefix}:no-fault{rg}"), false)
         } else {
-            (format!("{prefix}:{}", kinds.iter().cloned().collect::<Vec<_>>().join("+")), false)
+            (format!("{prefix}:{}{rg}", kinds.iter().cloned().collect::<Vec<_>>().join("+")), false)
         }
     };
     if std::env::var("C11_DEBUG").is_ok() {
@@ -1079,22 +1143,92 @@ fn random_strategy(known: Known, steer_weight: f64) -> impl Strategy<Value = (Ca
             if steer {
                 faults = faults.into_iter().map(|f| steer_away(f, &known)).collect();
             }
-            (Case { faults, a_is_client, timers: Timers::Fast }, steer)
+            (Case { faults, a_is_client, timers: Timers::Fast, regroup: None }, steer)
         })
+}
+
+fn rspec(order: &[u8], reorder_first: u8, split: u8) -> Option<RegroupSpec> {
+    Some(RegroupSpec { order: order.to_vec(), reorder_first, split })
+}
+
+/// Re-groupings of the enumerated `coalesced` sub-check.
+pub fn regroup_modes() -> Vec<Regrouping> {
+    let both = |s: Option<RegroupSpec>| Regrouping { client: s.clone(), server: s };
+    vec![
+        // every flight in one datagram, as webrtc-rs / pion / OpenSSL send them
+        both(rspec(&[], 0, 0)),
+        Regrouping { client: rspec(&[], 0, 0), server: None },
+        Regrouping { client: None, server: rspec(&[], 0, 0) },
+        // first transmission with the records reversed inside the datagram
+        both(rspec(&[3, 2, 1, 0], 1, 0)),
+        // first two transmissions rotated by one record
+        both(rspec(&[1, 2, 3, 0], 2, 0)),
+        // merged, then split again after the first / second record
+        both(rspec(&[], 0, 1)),
+        both(rspec(&[], 0, 2)),
+    ]
+}
+
+/// Fault plans of the enumerated `coalesced` sub-check for one re-grouping: nothing, every basic action on every
+/// datagram class (a class addresses the datagram whose FIRST record has it), and the same class dropped twice.
+fn coalesced_cases(rg: &Regrouping, a_is_client: bool) -> Vec<Case> {
+    let mk = |faults: Vec<Fault>| Case { faults, a_is_client, timers: Timers::Fast, regroup: Some(rg.clone()) };
+    let mut out = vec![mk(vec![])];
+    for (client, class) in datagrams() {
+        for act in basic_acts() {
+            out.push(mk(vec![Fault { client, class, ordinal: 0, act }]));
+        }
+        out.push(mk((0..2).map(|ordinal| Fault { client, class, ordinal, act: Act::Drop }).collect()));
+    }
+    // the server's final flight is lost and so is the first retransmission of the client's flight
+    out.push(mk(vec![
+        Fault { client: false, class: DClass::ChangeCipherSpec, ordinal: 0, act: Act::Drop },
+        Fault { client: true, class: DClass::ClientKeyExchange, ordinal: 1, act: Act::Drop },
+    ]));
+    out
+}
+
+fn regroup_strategy() -> impl Strategy<Value = Regrouping> {
+    let spec = (
+        prop_oneof![3 => Just(Vec::<u8>::new()), 2 => Just(vec![0u8, 1, 2, 3]).prop_shuffle(), 1 => Just(vec![3u8, 2, 1, 0])],
+        0..=2u8,
+        prop_oneof![3 => Just(0u8), 1 => 1..=3u8],
+    )
+        .prop_map(|(order, reorder_first, split)| RegroupSpec { order, reorder_first, split });
+    (prop::option::weighted(0.8, spec.clone()), prop::option::weighted(0.8, spec)).prop_map(|(client, server)| {
+        if client.is_none() && server.is_none() {
+            let d = rspec(&[], 0, 0);
+            Regrouping { client: d.clone(), server: d }
+        } else {
+            Regrouping { client, server }
+        }
+    })
+}
+
+/// 1-6 basic faults (ordinals 0-2) on top of a random re-grouping.
+fn coalesced_random_strategy() -> impl Strategy<Value = Case> {
+    let f = (prop::sample::select(datagrams()), prop_oneof![5 => Just(0u16), 3 => Just(1u16), 1 => Just(2u16)], basic_act_strategy()).prop_map(|((client, class), ordinal, act)| Fault {
+        client,
+        class,
+        ordinal,
+        act,
+    });
+    (regroup_strategy(), prop::collection::vec(f, 1..=6), any::<bool>()).prop_map(|(rg, faults, a_is_client)| Case { faults, a_is_client, timers: Timers::Fast, regroup: Some(rg) })
 }
 
 fn pair_strategy(singles: Arc<Vec<Fault>>) -> impl Strategy<Value = Case> {
     let n = singles.len();
-    (0..n, 0..n, any::<bool>()).prop_map(move |(i, j, a_is_client)| Case { faults: pair_of(&singles, i.min(j), i.max(j)), a_is_client, timers: Timers::Fast })
+    (0..n, 0..n, any::<bool>()).prop_map(move |(i, j, a_is_client)| Case { faults: pair_of(&singles, i.min(j), i.max(j)), a_is_client, timers: Timers::Fast, regroup: None })
 }
 
 // ------------------------------------------------------------------------------------------ entry point
 
 pub fn run(ctx: &mut Ctx) {
     ctx.level = "fault_enumeration";
-    ctx.rule = "fault plans over the handshake datagrams of two real rustrtc endpoints (one record per datagram, addressed by sender role x class {ClientHello, ServerHello, Certificate, ServerKeyExchange, ServerHelloDone, ClientKeyExchange, ChangeCipherSpec, Finished} x ordinal): 'single' = every single fault {drop, dup, dup spaced 1.5 T, delay 0.3 T, delay 1.5 T, swap-with-next, 7 re-fragmentations (2-3 fragments: in order, coalesced, 1-byte edge fragments, reversed, middle swapped, first duplicated, middle duplicated)} on each of the 10 datagrams; 'pair' = pairs of those (all in thorough, seeded sample in quick; a second fault on the same class hits the retransmission); 'random' = 3-10 faults incl. repeated drops of one flight and random re-fragmentation (half of the plans steer clear of known non-converging fault kinds); 'prod-timers' = single faults at the production 1 s / 30 s timers; 'interop-single' = rustrtc against the independent webrtc-rs dtls crate through a UDP proxy in both roles (cookie exchange with HelloVerifyRequest, datagrams un-bundled to one record each, every single fault incl. re-fragmentation, plus faults on webrtc-rs's natively fragmented Certificate at MTU 160); thorough adds 'interop-random' (1-4 faults, MTU 0/160/256/400, bundled or not). Non-trivial = a fired fault touched a datagram carrying Finished/ChangeCipherSpec/Certificate or the run saw >= 1 retransmitted handshake datagram; distinct by case digest.".into();
+    ctx.rule = "fault plans over the handshake datagrams of two real rustrtc endpoints (one record per datagram, addressed by sender role x class {ClientHello, ServerHello, Certificate, ServerKeyExchange, ServerHelloDone, ClientKeyExchange, ChangeCipherSpec, Finished} x ordinal): 'single' = every single fault {drop, dup, dup spaced 1.5 T, delay 0.3 T, delay 1.5 T, swap-with-next, 7 re-fragmentations (2-3 fragments: in order, coalesced, 1-byte edge fragments, reversed, middle swapped, first duplicated, middle duplicated)} on each of the 10 datagrams; 'pair' = pairs of those (all in thorough, seeded sample in quick; a second fault on the same class hits the retransmission); 'random' = 3-10 faults incl. repeated drops of one flight and random re-fragmentation (half of the plans steer clear of known non-converging fault kinds); 'coalesced' = 7 re-groupings of each sender's records into datagrams (net::coalesce: every flight merged into one datagram on both / one side, records reversed or rotated inside the datagram on the first transmissions, merged flight split again after 1 or 2 records) x {no fault, 6 basic actions on each datagram class (= first record), the same class dropped twice, final flight + first retransmission of flight 5 dropped}; 'coalesced-random' = random re-grouping x 1-6 basic faults with ordinals 0-2; 'prod-timers' = single faults at the production 1 s / 30 s timers; 'interop-single' = rustrtc against the independent webrtc-rs dtls crate through a UDP proxy in both roles (cookie exchange with HelloVerifyRequest, datagrams un-bundled to one record each, every single fault incl. re-fragmentation, plus faults on webrtc-rs's natively fragmented Certificate at MTU 160); 'interop-bundled' = the reference's own layout (webrtc-rs packs a whole flight into one datagram, rustrtc one record) under every single whole-datagram fault (6 actions) on every flight in each direction, each datagram dropped twice, and rustrtc's final flight lost together with the reference's first retransmission, both role assignments; 'interop-random' = 1-4 faults, MTU 0/160/256/400, bundled or not (150 quick / 600 thorough). Labels 'multi-record-datagram-to-Connected-endpoint' / 'interop:multi-record-datagram-to-Connected-rustrtc' count the cases in which a datagram with several records reached an endpoint that was already Connected. Non-trivial = a fired fault touched a datagram carrying Finished/ChangeCipherSpec/Certificate or the run saw >= 1 retransmitted handshake datagram; distinct by case digest.".into();
     ctx.assumptions = vec![
         "faults are finite plans (each rule fires once), so the network eventually delivers retransmitted flights; application-data datagrams are never faulted".into(),
+        "re-grouping is something a sender may do (RFC 6347 4.1.1: several records per datagram, in any order the sender likes); a re-ordering inside the datagram is applied to the first one or two transmissions of a flight only, later transmissions are merged in the order sent - a peer that persistently sends Finished ahead of ClientKeyExchange is not 'eventually delivering'".into(),
         "timer scale per case is recorded in the case ('timers'): Fast = hook H2 (60 ms retransmit, 6 s deadline), Prod = production (1 s, 30 s); the liveness bound is 10 retransmit intervals after the last fault effect, a miss counts only if it repeats in 3 solo runs (DESIGN 2.6); a plan containing a known non-converging fault kind is attributed to that finding without solo re-runs".into(),
         "fragments produced by the harness carry fresh epoch-0 record sequence numbers (0x40000000+) and are self-checked by an offset-aware reassembly".into(),
         "both endpoints verify the peer certificate fingerprint (as WebRTC does)".into(),
@@ -1105,19 +1239,19 @@ pub fn run(ctx: &mut Ctx) {
     let known = known_set(ctx);
     let chk = checker(known.clone());
     let singles = single_faults();
-    // developer aid: C11_ONLY=single|pair|random|prod|interop runs one part
+    // developer aid: C11_ONLY=single|pair|random|coalesced|prod|interop runs one part
     let only = std::env::var("C11_ONLY").ok();
     let want = |part: &str| only.as_deref().map(|o| o == part).unwrap_or(true);
 
     // 1. every single fault (plus the fault-free plan)
     if want("single") {
-    let mut cases = vec![Case { faults: vec![], a_is_client: true, timers: Timers::Fast }];
+    let mut cases = vec![Case { faults: vec![], a_is_client: true, timers: Timers::Fast, regroup: None }];
     for f in &singles {
-        cases.push(Case { faults: vec![f.clone()], a_is_client: true, timers: Timers::Fast });
+        cases.push(Case { faults: vec![f.clone()], a_is_client: true, timers: Timers::Fast, regroup: None });
     }
     if ctx.thorough() {
         for f in &singles {
-            cases.push(Case { faults: vec![f.clone()], a_is_client: false, timers: Timers::Fast });
+            cases.push(Case { faults: vec![f.clone()], a_is_client: false, timers: Timers::Fast, regroup: None });
         }
     }
     ctx.set_extra("single_faults_enumerated", serde_json::json!(singles.len()));
@@ -1139,7 +1273,7 @@ pub fn run(ctx: &mut Ctx) {
         let mut cases = Vec::new();
         for i in 0..singles.len() {
             for j in i..singles.len() {
-                cases.push(Case { faults: pair_of(&singles, i, j), a_is_client: true, timers: Timers::Fast });
+                cases.push(Case { faults: pair_of(&singles, i, j), a_is_client: true, timers: Timers::Fast, regroup: None });
             }
         }
         ctx.set_extra("pairs_enumerated", serde_json::json!(cases.len()));
@@ -1161,6 +1295,23 @@ pub fn run(ctx: &mut Ctx) {
         ctx.sub_async(&rt, "random", n, 192, strat.prop_map(|(c, _)| c), chk.clone());
     }
 
+    // 3b. multi-record datagrams: every flight merged / re-ordered / re-split, combined with the datagram faults
+    if want("coalesced") && !stop(ctx) {
+        let mut cases = Vec::new();
+        for rg in regroup_modes() {
+            cases.extend(coalesced_cases(&rg, true));
+            if ctx.thorough() {
+                cases.extend(coalesced_cases(&rg, false));
+            }
+        }
+        ctx.set_extra("coalesced_cases_enumerated", serde_json::json!(cases.len()));
+        run_batch(ctx, &rt, "coalesced", cases, 128, &chk);
+        if !stop(ctx) {
+            let n = ctx.scale(300usize, 4000usize);
+            ctx.sub_async(&rt, "coalesced-random", n, 128, coalesced_random_strategy(), chk.clone());
+        }
+    }
+
     // 4. production timers
     if want("prod") && !stop(ctx) {
         let mut cases = Vec::new();
@@ -1179,7 +1330,7 @@ pub fn run(ctx: &mut Ctx) {
                     | (false, DClass::Finished, Act::Dup { gap_pct: 150, .. })
             ) || (f.class == DClass::Certificate && matches!(&f.act, Act::Refrag { order, coalesce: false, .. } if order.len() == 2))
         };
-        cases.push(Case { faults: vec![], a_is_client: true, timers: Timers::Prod });
+        cases.push(Case { faults: vec![], a_is_client: true, timers: Timers::Prod, regroup: None });
         let mut skipped = 0u64;
         for f in &singles {
             if ctx.thorough() || quick_pick(f) {
@@ -1190,7 +1341,7 @@ pub fn run(ctx: &mut Ctx) {
                     skipped += 1;
                     continue;
                 }
-                cases.push(Case { faults: vec![f.clone()], a_is_client: true, timers: Timers::Prod });
+                cases.push(Case { faults: vec![f.clone()], a_is_client: true, timers: Timers::Prod, regroup: None });
             }
         }
         ctx.set_extra("prod_timer_cases_skipped_as_known", serde_json::json!(skipped));
